@@ -163,6 +163,7 @@ def _as_array_or_scalar(exprs: Sequence[ScalarExpression],
         if isinstance(expr, SCALAR_CLASSES):
             result.append(expr)
         elif (isinstance(expr, p.Variable)
+              and expr.name in bindings
               and bindings[expr.name].shape == ()):
             result.append(bindings[expr.name])
         elif (isinstance(expr, p.Subscript)
